@@ -192,15 +192,19 @@ def interval_tier(draw, style=None, max_segments: int = 6, label=SMALL_LABELS, n
 
 @st.composite
 def point_tier(draw, style=None, max_points: int = 6, label=SMALL_LABELS, name="p",
-               allow_empty: bool = True, span: str = "any"):
+               allow_empty: bool = True, span: str = "any", dups: bool = False):
     if style is None:
         style = draw(STYLES_ARITH)
     m = draw(st.integers(0 if allow_empty else 1, max_points))
     ts = draw(boundaries(style, m + 1))
     m = len(ts) - 1
     keep = ts[:m] if draw(st.booleans()) else ts[1:]
+    if dups and keep and draw(st.integers(0, 2)) == 0:
+        # coinciding point times are legal (validate() is True); entries stay sorted by (time, label)
+        i = draw(st.integers(0, len(keep) - 1))
+        keep = sorted(keep + [keep[i]] * draw(st.integers(1, 2)))
     labs = draw(st.lists(label, min_size=len(keep), max_size=len(keep)))
-    entries = [[t, l] for t, l in zip(keep, labs)]
+    entries = sorted([t, l] for t, l in zip(keep, labs))
     lo, hi = ts[0], ts[-1]
     minT = 0.0 if span == "tight0" else draw(st.sampled_from([0.0, lo]))
     extra = draw(st.sampled_from([0.0, 0.0, 1.0, 0.5])) if span == "any" else 0.0
@@ -281,11 +285,15 @@ def io_safe_boundaries(xs):
 
 
 @st.composite
-def io_tier(draw, style, name, label, is_int=None, max_segments=5, explicit_empty=True):
+def io_tier(draw, style, name, label, is_int=None, max_segments=5, explicit_empty=True, pool=None):
     if is_int is None:
         is_int = draw(st.booleans())
     m = draw(st.integers(0, max_segments))
-    if style == "wild":
+    if pool is not None:
+        # all tiers of one textgrid take their boundaries from one rounding-safe pool
+        idx = sorted(set(draw(st.lists(st.integers(0, len(pool) - 1), min_size=1, max_size=m + 1))))
+        bs = [pool[i] for i in idx]
+    elif style == "wild":
         bs = io_safe_boundaries(draw(st.lists(wild_time(), min_size=m + 1, max_size=m + 1)))
     else:
         bs = draw(boundaries(style, m + 1))
@@ -320,6 +328,12 @@ def io_textgrid(draw, rich=True, tokens=True, max_tiers=4, clean=True, styles=("
     nm = names(tokens) if rich else st.sampled_from(["a", "b", "c", "d", "e"])
     n = draw(st.integers(1, max_tiers))
     tiers, used = [], set()
+    pool = None
+    if style == "wild":
+        # distinct boundaries anywhere in the textgrid (tiers and span) stay further apart than the rounding C01 allows
+        pool = io_safe_boundaries(draw(st.lists(wild_time(), min_size=2, max_size=9)))
+        if len(pool) < 2:
+            pool = io_safe_boundaries(pool + [pool[0] + 1.0])
     for i in range(n):
         name = draw(nm)
         if unique_names:
@@ -329,8 +343,10 @@ def io_textgrid(draw, rich=True, tokens=True, max_tiers=4, clean=True, styles=("
                 name = f"{base}_{k}"
                 k += 1
         used.add(name)
-        tiers.append(draw(io_tier(style, name, lab, explicit_empty=explicit_empty)))
+        tiers.append(draw(io_tier(style, name, lab, explicit_empty=explicit_empty, pool=pool)))
     lo = 0.0 if draw(st.integers(0, 3)) > 0 else min(t["minT"] for t in tiers)
+    if pool is not None and 0 < min(t["minT"] for t in tiers) <= 4e-14:
+        lo = min(t["minT"] for t in tiers)
     lo = min([lo] + [t["minT"] for t in tiers])
     hi = max(t["maxT"] for t in tiers)
     if hi <= lo:
@@ -338,7 +354,7 @@ def io_textgrid(draw, rich=True, tokens=True, max_tiers=4, clean=True, styles=("
     if clean:
         if draw(st.integers(0, 3)) == 0:
             hi2 = hi + 1.0
-            if hi2 > hi:
+            if hi2 - hi > 4e-14 * hi2:
                 hi = hi2
         for t in tiers:
             t["minT"], t["maxT"] = lo, hi
